@@ -187,10 +187,11 @@ func (cs *Contracts) LoadContractFile(path, pkg string) error {
 			cur = &FuncContract{Pkg: pkg, Name: name, Mode: "int", Loops: map[int]*LoopContract{}, Flags: map[string]bool{},
 				Extern: word == "extern", File: path, Line: lineNo, Params: params, Results: results}
 			key := pkg + "." + name
-			if word == "extern" && strings.Contains(name, ".") && !strings.HasPrefix(name, "(") {
-				key = name // fully qualified external function
+			if word == "extern" {
+				key = name // external functions are keyed by their full go/ssa name
+				cs.Funcs[pkg+"."+name] = cur
 			}
-			if _, dup := cs.Funcs[key]; dup {
+			if _, dup := cs.Funcs[key]; dup && word != "extern" {
 				return fail("duplicate contract for %s", key)
 			}
 			cs.Funcs[key] = cur
